@@ -1,4 +1,5 @@
 import OasisProofs.Helpers.MkvsOverlay
+import OasisProofs.Helpers.MkvsIterMachine
 /-
 C03 — the MKVS tree and overlays behave as an ordered map.
 
@@ -12,15 +13,11 @@ What is proved here: the trie (`trie_refines_smap`), the tree object with its pe
 of operations / new / commit / discard (`overlay_stack_refines`); in-order traversal sorted and
 seek = suffix of the sorted list (`inorder_sorted`, `seek_is_suffix`).
 
-TODO (stated, not proved — DESIGN §5 C03 `iter_machine_eq_successor`): the *tree* iterator is
-modelled at specification level (`Stack.iter` base case = `SMap.seekGE` of the in-order traversal);
-the visit-state machine of iterator.go:228-310 (`visitBefore/At/AtLeft/After`, the `pos` stack,
-`takeFirst`, `AppendBit`/`advanceKeyToRight` on the seek key) is not modelled in Lean. Full statement:
-  for every canonical trie `t` and seek key `s`, `Seek s` followed by `Next`* through that machine
-  yields exactly `SMap.seekGE t.toList s`.
-It is covered only by the correspondence (every `iter` answer of the real iterator, on every handle,
-is compared with `SMap.seekGE`) and by the Go sorted-map reference. Not in the model either:
-`OverlayTree.Copy`, iterators interleaved with writes inside one iteration, the node cache.
+The tree iterator is modelled as the code writes it (`OasisModel.Mkvs.Iter`) and proved equal to the
+successor specification (`iter_machine_eq_successor`, `iter_next_is_successor`,
+`stack_iterMachine_eq`); the driver compares every `iter` answer with both.
+`OverlayTree.Copy` is modelled (`Layer.copy`, `overlay_copy_refines`) and driven (`ocopy`/`oswap`).
+Not in the model: iterators interleaved with writes inside one iteration, the node cache.
 -/
 namespace OasisProofs.C03
 open OasisModel.Mkvs OasisProofs.Mkvs
@@ -73,6 +70,30 @@ theorem seek_is_suffix (m : List KV) (hm : SMap.Sorted m) (s : Bytes) :
       intro y hy
       have : ¬ y.1 < s := fun hlt => h (bytes_lt_trans (hx y hy) hlt)
       simp [this]
+
+/-- The tree iterator as the code writes it (iterator.go:195-341: `doNext` with the visit states
+`visitBefore/At/AtLeft/After`, the `pos` stack, `takeFirst`, `keyNotLonger`, `AppendBit` and
+`advanceKeyToRight` on the seek key; model `OasisModel.Mkvs.Iter`): for every canonical trie and
+every seek key — shorter or longer than any path, present or not — `Seek` followed by `Next` until
+the iterator is invalid yields exactly the suffix of the sorted contents from the first key ≥ the
+seek key. -/
+theorem iter_machine_eq_successor (t : Trie) (h : WF t) (s : Bytes) :
+    Iter.iterate t s = SMap.seekGE t.toList s := iterate_eq_seekGE h s
+
+/-- One `doNext` call (any resume state): it returns the first not-yet-visited item with key ≥ the
+bound together with a resume stack whose remaining items are exactly the items after it. -/
+theorem iter_doNext_spec (t : Trie) (p : Bits) (K : Bytes) (st : Iter.VState) (hwf : WFAt p t)
+    (hnode : st ≠ .before → ∃ lab lf l r, t = Trie.node lab lf l r)
+    (hleft : st = .atLeft → LeftPre t p K) :
+    Post (nOf t p) K (part st t) (Iter.doNext t p K st) := doNext_spec t p K st hwf hnode hleft
+
+/-- One `Next`: from a consistent iterator state the next item is the head of what remains, and
+the state stays consistent (so `Next` is the successor). -/
+theorem iter_next_is_successor (cur : KV) (pos : List Iter.Atom) (h : StackOK cur pos) :
+    match remaining pos with
+    | [] => Iter.nextLoop cur.1 pos = none
+    | y :: ys => ∃ pos', Iter.nextLoop cur.1 pos = some (y, pos') ∧ remaining pos' = ys ∧ StackOK y pos' :=
+  nextLoop_spec cur pos h
 
 /-- Map laws, read directly on the tree: get after insert. -/
 theorem get_insert (t : Trie) (h : WF t) (k v k' : Bytes) :
@@ -205,6 +226,14 @@ theorem overlay_refines (L : Layer) (h : LInv L) (m : List KV) (hm : SMap.Sorted
    fun k => layer_removeExisting h hm k,
    fun s => layer_iter h hm s,
    rfl⟩
+
+/-- `OverlayTree.Copy` (overlay.go:96): the copy shows, over any inner tree `m'` (the same one for
+`Copy(nil)` or another one), exactly what the original shows over `m'`, and is a value of its own:
+later operations on one of the two do not change the other. -/
+theorem overlay_copy_refines (L : Layer) (h : LInv L) (m' : List KV) :
+    LInv L.copy ∧ view L.copy m' = view L m' ∧
+    (∀ k v, view (L.insert k v) m' = view (L.copy.insert k v) m' ∧ L.copy = L) :=
+  ⟨⟨h.sorted, h.sub, h.nodup⟩, rfl, fun _ _ => ⟨rfl, rfl⟩⟩
 
 /-- Operations on a stack of overlays over a tree: an operation on the outermost handle,
 `NewOverlay` on it, `Commit` of the outermost overlay (it stays, empty), `Close` of it. -/
@@ -355,6 +384,16 @@ theorem overlay_stack_refines (ops : List SOp) (old : List KV) (b : TreeState) (
     simp only [runStack, runSpecStack]
     rw [← h2, ← h3]
     exact ⟨i1, i2, by rw [i3]⟩
+
+/-- Iteration on any handle of an overlay stack with the iterator machine at the bottom equals the
+specification-level iteration (hence, by `overlay_stack_refines`, the ordered map's). -/
+theorem stack_iterMachine_eq (old : List KV) (b : TreeState) (ls : List Layer) (h : SInv old b ls)
+    (s : Bytes) : Stack.iterMachine b ls s = Stack.iter b ls s := by
+  induction ls with
+  | nil => exact iterate_eq_seekGE h.base.wf s
+  | cons L rest ih =>
+    show L.iter (Stack.iterMachine b rest s) s = L.iter (Stack.iter b rest s) s
+    rw [ih (sinv_tail h)]
 
 /-- Tree commit keeps the contents (it only hashes) and resets the pending write log; the
 invariant then holds relative to the new committed contents, so histories continue across commits. -/
